@@ -1,6 +1,7 @@
 """C04  Netlist write -> read round trip preserves the design (yaml_write_netlist / yaml_read_netlist)."""
 from hypothesis import strategies as st
 
+from frame.geometry.geometry import Point
 from frame.netlist.netlist import Netlist
 from gen import netlist as G
 from vfw.core import Sub, Violation
@@ -11,11 +12,12 @@ RULE = ("netlist documents from the shared generator: 1-6 modules mixing soft (s
         "flippable hard, fixed, terminal (with/without centre, fixed or not); names from a pool with YAML-sensitive identifiers "
         "(yes, no, on, true, null, y, N, _); nets of arity 2-6 with repeated members and weight absent / int / float. "
         "Loaded from the parsed tree or from YAML text. Oracle: n = Netlist(doc); t = n.write_yaml(); n2 = Netlist(t) compared "
-        "field by field with ==; n2.write_yaml() == t; writing twice gives the same text. "
+        "field by field with ==; n2.write_yaml() == t; writing twice gives the same text; then (half of the cases) the loaded object is "
+        "edited through its API (centre moved, square created, rectangles assigned, hard module recentred) and written and read again. "
         "non-trivial = at least 2 modules of different kinds and at least one net; distinct = distinct model.")
 ASSUMPTIONS = [
     "stored numbers are compared with == (the dumper writes repr, the reader parses it back exactly); quantities the reader derives from the rectangles (centre of a module with rectangles, area of a hard module) with 1e-12 relative, because recognition may reorder the rectangles and float sums depend on the order",
-    "the generated documents are all accepted by the reader (checked: a rejection of a generated document is reported as a harness error)",
+    "documents the reader rejects are outside C04's quantifier and are skipped (counted as a class); on the unchanged tree none is rejected, and C05 reports such a rejection as a violation",
 ]
 
 
@@ -47,30 +49,9 @@ def describe(nl):
     return [mod_fields(m) for m in nl.modules], [net_fields(e) for e in nl.edges]
 
 
-def run_roundtrip(c):
-    model = c["model"]
-    doc = G.to_text(model) if c["form"] == "text" else G.to_tree(model)
-    try:
-        n = Netlist(doc)
-    except Exception as e:
-        raise RuntimeError("generator produced a document the reader rejects: %s: %s\n%s" % (type(e).__name__, e, doc))
-    before = describe(n)
-    try:
-        t = n.write_yaml()
-    except Exception as e:
-        raise Violation("write_yaml raised %s: %s for %s" % (type(e).__name__, e, G.to_tree(model)), "write-raised")
-    if describe(n) != before:
-        raise Violation("write_yaml altered the netlist object", "write-mutates")
-    t_again = n.write_yaml()
-    if t_again != t:
-        raise Violation("writing the same netlist twice gives different documents:\n%s\n---\n%s" % (t, t_again), "write-not-repeatable")
-    try:
-        n2 = Netlist(t)
-    except Exception as e:
-        raise Violation("the written document is rejected by the reader: %s: %s\n%s" % (type(e).__name__, e, t), "reread-rejected")
-    after = describe(n2)
+def compare(before, after, t, what=""):
     if len(after[0]) != len(before[0]) or [m["name"] for m in after[0]] != [m["name"] for m in before[0]]:
-        raise Violation("modules written %s, read back %s" % ([m["name"] for m in before[0]], [m["name"] for m in after[0]]),
+        raise Violation("%smodules written %s, read back %s" % (what, [m["name"] for m in before[0]], [m["name"] for m in after[0]]),
                         "modules-differ")
     for a, b in zip(before[0], after[0]):
         for k in a:
@@ -80,15 +61,97 @@ def run_roundtrip(c):
                 derived = a["rectangles"] and (k == "center" or (a["hard"] and k in ("area", "area_regions")))
                 if derived and _close(a[k], b[k]):
                     continue
-                raise Violation("module %s: %s was %r, after write+read it is %r\n%s" % (a["name"], k, a[k], b[k], t),
+                raise Violation("%smodule %s: %s was %r, after write+read it is %r\n%s" % (what, a["name"], k, a[k], b[k], t),
                                 "field-" + k)
     if before[1] != after[1]:
-        raise Violation("nets were %s, after write+read %s\n%s" % (before[1], after[1], t), "nets-differ")
+        raise Violation("%snets were %s, after write+read %s\n%s" % (what, before[1], after[1], t), "nets-differ")
+
+
+def apply_edits(n, edits):
+    """Edits the loaded netlist through its public API (what the floorplanning stages do between two snapshots)."""
+    done = []
+    mods = n.modules
+    for kind, k, a, b in edits:
+        m = mods[k % len(mods)]
+        a, b = abs(a), abs(b)  # (coordinates stay non-negative: the reader refuses negative centres)
+        if kind == "center" and m.center is not None and m.num_rectangles == 0:
+            m.center = Point(m.center.x + a, m.center.y + b)
+            done.append("edit-centre")
+        elif kind == "center-inplace" and m.center is not None and m.num_rectangles == 0:
+            m.center.x += a
+            m.center.y += b
+            done.append("edit-centre")
+        elif kind == "square" and m.is_soft and m.center is not None and m.num_rectangles == 0:
+            m.create_square()
+            m.create_stog()
+            done.append("edit-square")
+        elif kind == "assign" and m.is_soft:
+            cx, cy = (m.center.x, m.center.y) if m.center is not None else (10.0, 10.0)
+            n.assign_rectangles({m.name: [[abs(cx) + 4 + a, abs(cy) + 4 + b, 2.0, 3.0]]})
+            m.create_stog()
+            done.append("edit-assign")
+        elif kind == "recenter" and m.is_hard and not m.is_fixed and not m.is_terminal and m.num_rectangles > 0:
+            c0 = m.calculate_center_from_rectangles()
+            m.center = Point(c0.x + a, c0.y + b)
+            m.recenter_rectangles()
+            m.center = None  # (as the spectral stage does: the centre of a hard module is the one of its rectangles)
+            done.append("edit-recenter-hard")
+    return done
+
+
+def run_roundtrip(c):
+    model = c["model"]
+    doc = G.to_text(model) if c["form"] == "text" else G.to_tree(model)
+    try:
+        n = Netlist(doc)
+    except Exception as e:
+        # C04 quantifies over the netlists the reader accepts; whether a well-formed document is accepted is C05's question
+        # (its 'wellformed' subcheck reports a rejection of the same generator's documents as a violation)
+        return dict(nt=False, cls=["source-document-rejected-by-the-reader:" + type(e).__name__])
+    before = describe(n)
+    try:
+        t = n.write_yaml()
+    except Exception as e:
+        raise Violation("write_yaml raised %s: %s for %s" % (type(e).__name__, e, G.to_tree(model)), "write-raised")
+    if describe(n) != before:
+        raise Violation("write_yaml altered the netlist object", "write-mutates")
+    failed = len(model["modules"]) % 2 == 0
+    if failed:
+        # productions of other objects that fail (values the dumper cannot represent, a file that cannot be created) in between
+        from props.c19 import failed_productions
+        failed_productions()
+    t_again = n.write_yaml()
+    if t_again != t:
+        raise Violation("writing the same netlist twice gives different documents:\n%s\n---\n%s" % (t, t_again), "write-not-repeatable")
+    try:
+        n2 = Netlist(t)
+    except Exception as e:
+        raise Violation("the written document is rejected by the reader: %s: %s\n%s" % (type(e).__name__, e, t), "reread-rejected")
+    after = describe(n2)
+    compare(before, after, t)
     t2 = n2.write_yaml()
     if t2 != t:
         raise Violation("writing the reloaded design gives a different document:\n%s\n---\n%s" % (t, t2), "second-write-differs")
     kinds = {m["kind"] for m in model["modules"]}
-    cls = ["kind-" + k for k in kinds] + [c["form"]]
+    cls = ["kind-" + k for k in kinds] + [c["form"]] + (["failed-writes-of-other-objects-in-between"] if failed else [])
+    # the same object is edited through its API and written again: the new document must describe the edited design
+    if c.get("edits"):
+        done = apply_edits(n, c["edits"])
+        if done:
+            cls += done + ["edited-then-written-again"]
+            edited = describe(n)
+            for d in edited[0]:
+                # the centre of a module with rectangles IS the centroid of its rectangles (that is what the reader reports);
+                # Module.center of the edited object may still hold the value from before the rectangles were assigned
+                if d["rectangles"]:
+                    ar = sum(r[2] * r[3] for r in d["rectangles"])
+                    d["center"] = (sum(r[0] * r[2] * r[3] for r in d["rectangles"]) / ar, sum(r[1] * r[2] * r[3] for r in d["rectangles"]) / ar)
+            try:
+                t3 = n.write_yaml()
+                n3 = Netlist(t3)
+            except Exception as e:
+                raise Violation("after editing (%s) write+read raised %s: %s" % (done, type(e).__name__, e), "edited-write-raised")
+            compare(edited, describe(n3), t3, "after editing the loaded netlist (%s) and writing it again: " % ", ".join(done))
     for m in model["modules"]:
         if m["kind"] == "soft" and not m["area_scalar"]:
             cls.append("region-areas")
@@ -115,11 +178,16 @@ def run_roundtrip(c):
 
 @st.composite
 def case_s(draw):
-    return dict(model=draw(G.netlist_model()), form=draw(st.sampled_from(["tree", "tree", "text"])))
+    c = dict(model=draw(G.netlist_model()), form=draw(st.sampled_from(["tree", "tree", "text"])))
+    if draw(st.booleans()):
+        c["edits"] = [[draw(st.sampled_from(["center", "center-inplace", "square", "assign", "recenter"])), draw(st.integers(0, 5)),
+                       draw(st.integers(-8, 8)) / 4, draw(st.integers(-8, 8)) / 4] for _ in range(draw(st.integers(1, 3)))]
+    return c
 
 
 def subchecks():
-    return [Sub("roundtrip", run_roundtrip, strategy=case_s(), n_quick=5000, n_thorough=120000,
+    return [Sub("roundtrip", run_roundtrip, strategy=case_s(), n_quick=5000, n_thorough=120000, fuzz_thorough=2500,
                 required=("kind-soft", "kind-hard", "kind-fixed", "kind-terminal", "region-areas", "flip", "aspect-ratio",
                           "rect-in-region", "terminal-centre", "soft-centre", "multi-rect", "net-weighted", "net-unweighted",
-                          "net-weight-1", "hyperedge", "text", "tree"))]
+                          "net-weight-1", "hyperedge", "text", "tree", "edited-then-written-again", "edit-centre", "edit-square",
+                          "edit-assign", "edit-recenter-hard", "failed-writes-of-other-objects-in-between"))]
